@@ -1021,9 +1021,7 @@ class ValueList(Value):
 
     def insertAt(self, index, value):
         idx = index
-        if idx < 0:
-            idx = len(self.value) + idx
-        if idx > len(self.value):
+        if idx < 0 or idx > len(self.value):
             return self
         if idx == len(self.value):
             self.value.append(value)
